@@ -75,6 +75,8 @@ def writeOrder (s : WState) : List (Nat × Col × PageEntries) :=
 /-- `Write()`: emits every page (header write, payload write), updates the open row group, resets the
 chain and opens a new row group -/
 def WState.write (s : WState) : WState × List Bytes :=
+  -- `if p.len == 0 { return nil }`: nothing added since the last Write
+  if (s.pages.head?.map (·.len)).getD 0 = 0 then (s, []) else
   let (rg, out) := (writeOrder s).foldl (fun (acc : RG × List Bytes) (i, c, es) =>
       let (hdr, body) := pageBytes s.codec c es
       let raw := (pagePayload c es).length
@@ -111,7 +113,7 @@ def footerT (s : WState) : Option TVal :=
   match schemaElems s.cols with
   | none => none
   | some se =>
-    some (.struct [(1, .int 5 1), (2, .list 12 (se.map SElem.toT)), (3, .int 6 s.docs),
+    some (.struct [(1, .int 5 1), (2, .list 12 (se.map SElem.toT)), (3, .int 6 (((s.rgs.filter (·.numRows ≠ 0)).map (·.numRows)).sum)),
                    (4, .list 12 (rowGroupsT s.cols s.codec.id s.rgs 4))])
 
 def par1 : Bytes := [80, 65, 82, 49]
@@ -147,7 +149,8 @@ def fileBytes (calls : List (Option (List Bytes))) : Bytes :=
 /-- all uncompressed page payloads in emission order (to ask the external codec for their images) -/
 def payloadsOf : WState → List Op → List Bytes
   | _, [] => []
-  | s, .write :: ops => (writeOrder s).map (fun (_, c, es) => pagePayload c es) ++ payloadsOf s.write.1 ops
+  | s, .write :: ops =>
+    (if (s.pages.head?.map (·.len)).getD 0 = 0 then [] else (writeOrder s).map (fun (_, c, es) => pagePayload c es)) ++ payloadsOf s.write.1 ops
   | s, op :: ops => match s.step op with
     | none => []
     | some (s', _) => payloadsOf s' ops
